@@ -12,7 +12,13 @@ dump after the reopen (and with the child's): ids, names, types, definitions, la
 tag positions / extents / units, every dimension descriptor with all fields, creation times (forced to distinct old times by
 the histories), references, features with link type and data, positions / extents, sources, metadata, section links,
 repository, group members, data (hash of every stored element), data-frame columns / rows / every cell, property values /
-unit / uncertainty — in container order.  same=1 is required; diff= names the first differing kind.field."""
+unit / uncertainty — in container order.  same=1 is required; diff= names the first differing kind.field.
+Read-only sessions: the histories prepare attributes that exist (expansion origin, sampling interval / offset, uncertainty,
+labels, units, definitions), reopen read-only and call setters that overwrite them — every one has to be refused — and
+the raw dump at the END of the read-only session (after the refused calls) has to equal the one taken when it was opened
+(diff=ro-session:...) as well as the dump after the next reopen (read-only, other process, read-write); the file must
+open again in this process (ERR reopen-failed otherwise), and the read-write session then goes on writing.
+(seeded changes C02-A: refused numeric overwrite stays visible until close; C02-B: file id leaked by a refused write.)"""
 import random, re
 from engine import Prop, Case
 import histlib
@@ -68,7 +74,7 @@ class C02(Prop):
             sig['what'] = 'crash'
             return sig
         m = re.search(r'diff=(\S+)', a)
-        sig['diff'] = m.group(1) if m else 'digest'
+        sig['diff'] = m.group(1) if m else ('reopen-failed' if 'reopen-failed' in a else 'digest')
         return sig
 
     def describe(self, case, impl_lines, spec_lines):
